@@ -463,14 +463,15 @@ def _path(parent, node):
 class Lexicon:
     """The ordered rules of one lexer state, with all queries the rules use."""
 
-    def __init__(self, patterns: list[str], names: list[str]):
+    def __init__(self, patterns: list[str], names: list[str], extra_patterns: list[str] = ()):
         self.patterns, self.names = patterns, names
         self.master = build_nfa(patterns)
         self.singles = [build_nfa([p]) for p in patterns]
         # reference monitors distinguish delimiter characters even where no pattern does (e.g. the two quote kinds
         # under the class ["']): keep every ASCII punctuation / control white-space character as its own atom
         singles = [CharSet([("lit", cp)]) for cp in range(128) if not chr(cp).isalnum() and chr(cp) != "_"]
-        self.alpha = Alphabet([self.master], singles)
+        # extra_patterns: reference regexes that will be run against the same atoms (their sets refine the partition)
+        self.alpha = Alphabet([self.master] + [build_nfa([p]) for p in extra_patterns], singles)
         self.M = Matcher(self.master, self.alpha)
         self.R = [Matcher(n, self.alpha) for n in self.singles]
         self.L = [Matcher(n, self.alpha, cut=False) for n in self.singles]
